@@ -24,7 +24,7 @@ ID = "C06"
 RULE = (
     "cases = constructor x name set (all subsets of <= 5 of the 19 recognised names; plus value-kind and unknown-name variants of every accepted set); "
     "non-trivial = the constructor's answer (accepted class/system/flavor/stored values, or the exception type) was compared with the grammar model; "
-    "distinct = distinct (constructor, name set, value-kind variant)"
+    "distinct = distinct (constructor, name set, keyword order, value-kind variant)"
 )
 ASSUMPTIONS = [
     "M_ctor: resolve synonyms; reject a generic name occurring twice; exactly one complete azimuthal pair, at most one longitudinal, at most one temporal, temporal only with longitudinal, nothing else; momentum iff a synonym was used (obj / array constructors) or the class's flavor",
@@ -48,7 +48,8 @@ def bounds(tier):
     return {"tier": tier, "name_sets": sum(1 for k in range(0, 6) for _ in itertools.combinations(NAMES, k)),
             "constructors": ["obj"] + sorted(OBJ_CLASSES) + ["array(dict)", "array(dtype)", "zip", "Array"] + ["the 20 from_<names> class methods on the 6 object classes"],
             "value_kinds": "int, float, numpy.float64, numpy.int32, numpy.float32 accepted verbatim; bool, None, str, complex, list, numpy.bool_ rejected (one position at a time, every accepted set)",
-            "unknown_names": ["w", "pE"]}
+            "unknown_names": ["w", "pE"],
+            "keyword_orders": "keyword constructors: every permutation of every name set (5-name sets in quick: canonical, reversed, 4 rotations); array constructors: canonical and reversed field order"}
 
 
 def all_sets():
@@ -142,7 +143,20 @@ def check_objlike(res, ctor_name, fn, names, values, want, case):
 
 
 def _setkey(names):
-    return "+".join(names)
+    canon = sorted(names, key=NAMES.index)
+    return "+".join(canon) + ("" if list(names) == canon else "|other-keyword-order")
+
+
+def orders(names, tier):
+    """keyword orders other than the canonical one: all permutations (every set in thorough, sets of <= 4 names in quick);
+    for 5-name sets in quick the reversal and the four rotations"""
+    names = tuple(names)
+    if len(names) < 2:
+        return []
+    if tier == "thorough" or len(names) <= 4:
+        return [p for p in itertools.permutations(names) if p != names]
+    out = [names[::-1]] + [names[i:] + names[:i] for i in range(1, len(names))]
+    return [p for p in dict.fromkeys(out) if p != names]
 
 
 def _shape(names):
@@ -275,6 +289,21 @@ def check_set(res: Result, names, tier, only=None):
         if not names:
             continue
         check_arraylike(res, cname, fn, names, values, want, dict(case, ctor=cname))
+        if len(names) > 1:
+            # the same fields given in the opposite order (dict / dtype / record field order must not matter)
+            check_arraylike(res, cname, fn, names[::-1], values, want, dict(case, ctor=cname, names=list(names[::-1])))
+    # keyword order: the answer of the keyword constructors must not depend on the order in which the names are written
+    for perm in orders(names, tier):
+        res.states += 1
+        if only is None or only == "obj":
+            check_objlike(res, "obj", vector.obj, perm, values, want, dict(case, ctor="obj", names=list(perm)))
+        for cname, (cls, cdim, cflavor) in OBJ_CLASSES.items():
+            if only is not None and only != cname:
+                continue
+            w = want
+            if w is not None:
+                w = (w[0], w[1], cflavor, w[3]) if w[0] == cdim else None
+            check_objlike(res, cname, cls, perm, values, w, dict(case, ctor=cname, names=list(perm)))
     if want is None:
         return
     dim, system, flavor, origin = want
